@@ -100,6 +100,14 @@ pub trait Prop: Sync + Send {
     fn recycle_after(&self) -> u64 {
         200_000
     }
+    /// number of shards per worker slot the index space is cut into (more = better balance when cost is uneven)
+    fn shards_per_job(&self) -> u64 {
+        4
+    }
+    /// start with the shards at the end of the index space (where a check puts its most expensive cases)
+    fn expensive_cases_last(&self) -> bool {
+        false
+    }
     /// optional post-pass in the driver over aggregated counters; returns extra
     /// machinery-level vacuity complaints
     fn vacuity(&self, _tier: Tier, _counters: &BTreeMap<String, u64>) -> Vec<String> {
@@ -679,7 +687,8 @@ pub fn driver_main(prop: Arc<dyn Prop>, tier: Tier) -> i32 {
         .unwrap_or(16);
     let chunk = prop.chunk(tier);
     // shards: contiguous, chunk-aligned, at most recycle_after cases each
-    let per = ((n + jobs * 4 - 1) / (jobs * 4)).max(chunk);
+    let spj = prop.shards_per_job().max(1);
+    let per = ((n + jobs * spj - 1) / (jobs * spj)).max(chunk);
     let per = ((per + chunk - 1) / chunk * chunk).min(prop.recycle_after().max(chunk));
     let mut shards: Vec<(u64, u64)> = vec![];
     let mut a = 0;
@@ -687,6 +696,9 @@ pub fn driver_main(prop: Arc<dyn Prop>, tier: Tier) -> i32 {
         let b = (a + per).min(n);
         shards.push((a, b));
         a = b;
+    }
+    if prop.expensive_cases_last() {
+        shards.reverse();
     }
     // VERIF_SEED only rotates the order in which shards are started
     if !shards.is_empty() {
